@@ -223,11 +223,11 @@ func init() {
 			{Rel: ".", Dir: "fiber", Entry: "VH_C12_roundtrip", Cases: tierCases([]int{0, 1, 2}, []int{0, 1, 2, 3}), Reach: []string{"roundtrip"}, MaxPaths: 100000},
 			{Rel: ".", Dir: "fiber", Entry: "VH_C12_hostile", Cases: tierCases([]int{1, 2, 3, 4}, []int{1, 2, 3, 4, 5, 6, 7}), Reach: []string{"malformed", "wellformed"}, MaxPaths: 200000},
 			{Rel: ".", Dir: "fiber", Entry: "VH_C12_exchange", Cases: tierCases([]int{1}, []int{1}), Reach: []string{"exchange"}, MaxPaths: 100000},
-			{Rel: ".", Dir: "fiber", Entry: "VH_C12_entry", Cases: tierCases([]int{0, 1, 2, 3, 4, 5, 6}, []int{0, 1, 2, 3, 4, 5, 6}), Reach: []string{"entry"}, MaxPaths: 1000},
+			{Rel: ".", Dir: "fiber", Entry: "VH_C12_entry", Cases: tierCases([]int{0, 1, 2, 3, 4, 5, 6, 10, 12}, []int{0, 1, 2, 3, 4, 5, 6, 10, 11, 12, 13, 14, 15, 16}), Reach: []string{"entry"}, MaxPaths: 1000},
 			{Rel: ".", Dir: "fiber", Entry: "VH_C12_mixed", Cases: tierCases([]int{0, 1, 2, 4, 5, 6}, []int{0, 1, 2, 3, 4, 5, 6, 7}), Reach: []string{"mixed"}, MaxPaths: 100000, ExtraPkgs: []string{"github.com/gofiber/fiber/v3/binder"}},
 		},
 		Bounds: map[string]string{
-			"quick":    "round trip of 0..2 messages with symbolic key/value (length 0..2, all bytes), level and old-input flag into a dirty reused target; hostile cookie: every byte string of length 1..4 (minus ';', space, '\"') with an allocation budget of 64*len+512 bytes; issue/present/expire/absent exchange with 1 message at the fasthttp API level; the same exchange for one concrete message with the follow-up request parsed from wire bytes and served by the real request handler, for each of 7 methods; a redirect carrying one message (key 1 letter, value 0..2 letters) and the old input of one query field (name 1 letter, value 0..2 letters) in both call orders, the message key possibly equal to the field name",
+			"quick":    "round trip of 0..2 messages with symbolic key/value (length 0..2, all bytes), level and old-input flag into a dirty reused target; hostile cookie: every byte string of length 1..4 (minus ';', space, '\"') with an allocation budget of 64*len+512 bytes; issue/present/expire/absent exchange with 1 message at the fasthttp API level; the same exchange for one concrete message with the follow-up request parsed from wire bytes and served by the real request handler, for each of 7 methods (and GET, POST with a custom context); a redirect carrying one message (key 1 letter, value 0..2 letters) and the old input of one query field (name 1 letter, value 0..2 letters) in both call orders, the message key possibly equal to the field name",
 			"thorough": "up to 3 messages, hostile cookies up to 7 bytes (the exchange with 2 fully symbolic messages exceeds 800 000 paths and is outside)",
 		},
 		Assumptions: []string{
